@@ -13,7 +13,7 @@ TRUSTED = [
 
 
 def run(ctx):
-    ctx.assumptions += ["non-restarted runs", "action bodies over the modelled keyword set; matching wells exist at the action step",
+    ctx.assumptions += ["non-restarted runs", "action bodies over the modelled keyword set; matching wells exist at the action step", "every cell a re-iterated COMPDAT can reach is known to the run-time ScheduleGrid (the generators prefetch the whole grid through a never-applied action ZPRE; observation design.d/C04.md)", "WELSPECS '?' / WLIST '?' inside action bodies (order of the '?' expansion): property mode only, applied with a non-empty match set",
                         "inlined deck = substituted body inserted before the time keyword that closes block n (steps inside a multi-record DATES/TSTEP are skipped in property mode)"]
     ctx.stage_translate(["handlers"])
     if not ctx.stage_build_opm():
